@@ -16,7 +16,7 @@ import re
 
 PROPERTY = "C06"
 LEVEL = "proof"
-LEAN_MODULES = ["Exetera.Props.C06", "Exetera.Witness.C06"]
+LEAN_MODULES = ["Exetera.Props.C06", "Exetera.Witness.C06", "Exetera.Props.C0506"]
 THEOREMS = []
 EXHAUSTIVE = {"quick": True, "thorough": True}
 MODES = {"quick": ["jit"], "thorough": ["jit", "nojit", "bounds"], "search": ["jit", "nojit"]}
@@ -170,6 +170,9 @@ def col_to_model(case, chunks=None):
 
 
 def to_model(case):
+    if case["op"] == "csv_typed":
+        from checks.harness import c05
+        return c05.typed_to_model(case)
     if case["op"] == "c06_col":
         m = col_to_model(case)
         m["op"] = "c06_col"
@@ -547,6 +550,13 @@ def gen_cases(tier, rng):
     cases = list(corpus.load("C06"))
     cases.extend(exhaustive(tier))
     cases.extend(random_cases(tier, rng))
+    # the composition C05 o C06 (op csv_typed, owned by checks/harness/c05.py): mixed typed schemas through the REAL
+    # read_csv_with_schema_dict / read_csv with small chunk_row_size values, compared with the composed Lean model (the CSV
+    # driver feeding the importer models one import_part per kernel call) and with this module's oracle; here also with cells
+    # that are no category (NC06d)
+    from checks.harness import c05
+    cases.extend(c05.typed_regrowth_cases())
+    cases.extend(c05.typed_cases(rng, 160 if tier == "quick" else 4000, allow_unmatched=True))
     return cases
 
 
@@ -629,6 +639,9 @@ def read_col(e, df, col, name="a"):
 
 
 def impl(case):
+    if case["op"] == "csv_typed":
+        from checks.harness import c05
+        return c05.impl(case)
     e = _env()
     np = e["np"]
     if case["op"] == "c06_parse_int":
@@ -892,6 +905,9 @@ def col_spec(col, cells, io):
 def check_spec(case, io, mode):
     if case["op"] == "c06_parse_int":
         return None
+    if case["op"] == "csv_typed":
+        from checks.harness import c05
+        return c05.spec_typed(case, io)
     if case["op"] == "c06_col":
         cells = [unhx(c) for ch in case["chunks"] for c in ch]
         return col_spec(case, cells, io)
@@ -908,6 +924,8 @@ def check_spec(case, io, mode):
 
 def match_finding(case, io, mode):
     """NC06d: a categorical column without free text stores 0 for text that is no category — and nothing else is wrong"""
+    if case["op"] == "csv_typed":
+        return match_typed(case, io)
     cols = [case] if case["op"] == "c06_col" else case.get("cols", [])
     outs = [io] if case["op"] == "c06_col" else (io.get("cols") or [])
     if "err" in io or len(cols) != len(outs):
@@ -925,6 +943,35 @@ def match_finding(case, io, mode):
             return None
         hit = True
     return "NC06d" if hit else None
+
+
+def match_typed(case, io):
+    """NC06d on a csv_typed case: the only thing wrong is that categorical columns without free text hold 0 for cells that are
+    no category; everything else (rows, order, every other column, every matched cell) is as specified"""
+    from checks.harness import c05
+    if "err" in io:
+        return None
+    colcells = c05.typed_columns(case)
+    if colcells is None:
+        return None
+    skip = set()
+    for ci, c in enumerate(case["cols"]):
+        if c["kind"] != "categorical" or c["name"] not in io["fields"]:
+            continue
+        cells = colcells[ci]
+        o = io["fields"][c["name"]]
+        why = col_spec(c, cells, o)
+        if why is None:
+            continue
+        table = {unhx(k["k"]): k["v"] for k in c["cats"]}
+        if not why.startswith("unmatched:") or len(o["data"]) != len(cells) or \
+                any(o["data"][i] != table.get(x, 0) for i, x in enumerate(cells)):
+            return None
+        skip.add(c["name"])
+    if not skip:
+        return None
+    # everything else about the case (rows, order, every other column) must be as specified
+    return "NC06d" if c05.spec_typed(case, io, skip=skip) is None else None
 
 
 # ------------------------------------------------------------------------------------------------------------------
@@ -961,6 +1008,11 @@ def cmp_col(col, io, m):
 
 
 def compare(case, io, mo, mode):
+    if case["op"] == "csv_typed":
+        from checks.harness import c05
+        if "bad" in mo:
+            return f"model driver rejected the case: {mo['bad']}"
+        return c05.compare_typed(case, io, mo)
     if case["op"] == "c06_parse_int":
         return None if io.get("v") == mo.get("ok") else f"int() impl={io.get('v')} model={mo.get('ok')}"
     if case["op"] == "c06_col":
@@ -983,6 +1035,9 @@ def compare(case, io, mo, mode):
 
 # ------------------------------------------------------------------------------------------------------------------
 def nontrivial(case, mo):
+    if case["op"] == "csv_typed":
+        from checks.harness import c05
+        return c05.nontrivial(case, mo)
     if case["op"] == "c06_parse_int":
         return False
     if case["op"] == "c06_csv":
@@ -991,6 +1046,9 @@ def nontrivial(case, mo):
 
 
 def classify(case, mo):
+    if case["op"] == "csv_typed":
+        from checks.harness import c05
+        return c05.classify(case, mo)
     if case["op"] != "c06_col":
         return [case["op"]]
     tags = [case["kind"]]
@@ -1010,4 +1068,6 @@ def classify(case, mo):
 def select_for_mode(case, mode, tier):
     if case["op"] == "c06_parse_int":
         return False
+    if case["op"] == "csv_typed":
+        return case.get("_n", 0) % 7 == 0
     return case.get("_n", 0) % (7 if mode == "nojit" else 11) == 0 or "_corpus" in case
